@@ -209,6 +209,7 @@ Definition prog_case (label : string) (k : N) (gs codes vals : list sexp) : verd
               | Some w, _, _ | None, Some w, _ | None, None, Some w => VViol (w ++ info)
               | None, None, None =>
                   VOk ("nt prog " ++ label ++ " size" ++ bucket s_f ++ " vars" ++ bucket (1 + vars)
+                       ++ (if occ_scoped pf then " scoped" else " UNSCOPED")
                        ++ ratio_tag "core" s_c s_f ++ " occ" ++ bucket (1 + fun_occ pf) ++ ratio_tag "f2cb" f2c_n (1 + s_c) ++ ratio_tag "foc" s_fs s_c ++ ratio_tag "shr" s_s s_fs ++ ratio_tag "lin" s_l s_s
                        ++ match getN cx with Some n => ratio_tag "x86cg" n cgb | None => " x86panic" end
                        ++ match more with cxn :: _ => match getN cxn with Some n => ratio_tag "x86nc" n cgb | None => "" end | [] => "" end
